@@ -926,6 +926,28 @@ func (s *Store) RawTree(entries []gitstore.TreeEntry) githash.Hash {
 // RawEmptyTree returns the empty tree id without counting a call.
 func (s *Store) RawEmptyTree() githash.Hash { return s.emptyTree() }
 
+// TreeDigest renders the full content of a tree (paths and blob contents), so
+// that trees of different stores can be compared.
+func (s *Store) TreeDigest(treeID githash.Hash) string {
+	files := map[string]githash.Hash{}
+	if err := s.flatten(treeID, "", files); err != nil {
+		return "<missing tree>"
+	}
+	var names []string
+	for p := range files {
+		names = append(names, p)
+	}
+	sort.Strings(names)
+	var sb strings.Builder
+	for _, p := range names {
+		sb.WriteString(p)
+		sb.WriteString("=")
+		sb.WriteString(string(s.blobs[key(files[p])]))
+		sb.WriteString(";")
+	}
+	return sb.String()
+}
+
 // CommitInfo returns the stored commit (nil if absent).
 func (s *Store) CommitInfo(id githash.Hash) *Commit { return s.commits[key(id)] }
 
